@@ -426,7 +426,13 @@ func (v *Value) IterateOrder(fn func(idx, count int, key, value *Value) bool, em
 
 		itemCount := v.getResolvedValue().Len()
 		for i := 0; i < itemCount; i++ {
-			items = append(items, &Value{val: v.getResolvedValue().Index(i)})
+			item := v.getResolvedValue().Index(i)
+			if item.Kind() == reflect.Interface {
+				// Work on the dynamic value (e.g. the items of a []any),
+				// otherwise sorting compares nothing but the static type.
+				item = item.Elem()
+			}
+			items = append(items, &Value{val: item})
 		}
 
 		if sorted {
